@@ -94,10 +94,13 @@ func (k Keeper) Authenticate(ctx sdk.Context, sourceChain, destinationChain, por
 	return flag
 }
 
-// ConvWildcardToRegular convert wildcard to regular
+// ConvWildcardToRegular convert wildcard to regular.
+// Every character of a rule is taken literally ('+', '[', ']' and '.' are legal
+// identifier characters, not regular expression operators); only a field that
+// consists of a single '*' matches any value of that field.
 func ConvWildcardToRegular(wildcard string) string {
-	regular := strings.Replace(wildcard, ".", "\\.", -1)
-	regular = strings.Replace(regular, "*", ".*", -1)
+	regular := regexp.QuoteMeta(wildcard)
+	regular = strings.Replace(regular, "\\*", "[^,]*", -1)
 	regular = "^" + regular + "$"
 	return regular
 }
